@@ -1,37 +1,36 @@
 import Enc.Lemmas.JsonValid
 /-!
-# C05 — json.Valid and every syntax-only path accept exactly RFC 8259 JSON
+# C05 — json.Valid and every syntax-only path accept exactly RFC 8259 JSON nested at most 10000 deep (= encoding/json)
 Property theorems only (lemmas: Enc/Lemmas/Json*.lean).
 -/
 namespace Enc.Props.C05
 open Enc Enc.Model.Json
 
 /-- **Main theorem.** For EVERY byte string, the model of `json.Valid` (skipSpaces, whole-input flags, the recursive
-descent with its word-at-a-time quote search and flag-guarded early return, trailing white space) accepts exactly the
-RFC 8259 language defined by the independent recogniser `Spec.Json.validRFC` — no bound on length or nesting. -/
-theorem valid_eq_RFC8259 (b : Bytes) : valid b = Spec.Json.validRFC b :=
-  Lemmas.JsonValid.valid_eq_validRFC b
+descent with its word-at-a-time quote search, flag-guarded early return and nesting counter, trailing white space)
+accepts exactly what `encoding/json.Valid` accepts: the RFC 8259 language with nesting depth at most 10000, as defined
+by the independent recogniser `Spec.Json.validStd` — no bound on length or nesting. -/
+theorem valid_eq_std (b : Bytes) : valid b = Spec.Json.validStd b :=
+  Lemmas.JsonValid.valid_eq_validStd b
 
-/-- … and hence what `encoding/json.Valid` accepts, for every input no deeper than the standard library's nesting limit
-(stated with the sufficient condition `length ≤ 10000`). -/
-theorem valid_eq_std_partial (b : Bytes) (hb : b.length ≤ 10000) : valid b = Spec.Json.validStd b :=
-  Lemmas.JsonValid.valid_eq_validStd b hb
-
-/- The full statement "Valid = encoding/json.Valid for every byte string" is FALSE on the unchanged tree (known finding
-json-no-depth-limit): the two specifications differ beyond 10000 levels and the code follows `validRFC`
-(`#eval` on 10001 nested brackets: valid = validRFC = true, validStd = false; the harness replays that witness on the
-real code and on encoding/json in every run: op json.validdepth 10001). -/
+/-- … and hence exactly the unlimited RFC 8259 language `Spec.Json.validRFC` wherever the nesting limit cannot be hit
+(stated with the sufficient condition `length ≤ 10000`: 10001 levels need more than 10000 bytes). Beyond the limit the
+two languages differ and `Valid` follows `encoding/json` (see `deep_rejected` below). -/
+theorem valid_eq_RFC8259_of_short (b : Bytes) (hb : b.length ≤ 10000) : valid b = Spec.Json.validRFC b :=
+  Lemmas.JsonValid.valid_eq_validRFC_of_short b hb
 
 /-- the word-at-a-time search finds the FIRST closing-quote candidate exactly like a byte-wise scan -/
 theorem findQuote_is_indexByte (b : Bytes) : findQuote b = (indexByte (b.drop 1) 0x22).map (· + 2) :=
   Lemmas.JsonScan.findQuote_spec b
 
 /-- every recursive-descent entry used by the syntax-only consumers (RawMessage, MarshalJSON output, skipped values,
-Decoder framing) recognises exactly a grammar `value`, for any flags that are sound for the input and enough fuel -/
-theorem parseValue_is_grammar (fl : PFlags) (f f' d : Nat) (b : Bytes)
-    (hf : 3 * b.length ≤ f) (hf' : 2 * b.length ≤ f') (hd : b.length ≤ d) (hq : Lemmas.JsonString.QSound fl b) :
-    Lemmas.JsonString.toOpt (parseValue fl f b) = Spec.Json.value f' d b :=
-  Lemmas.JsonValue.parseValue_toOpt fl f f' d b hf hf' hd hq
+Decoder framing) recognises exactly a grammar `value` within the remaining nesting budget `10000 - depth`, for any flags
+that are sound for the input, enough fuel, and any nesting depth `depth ≤ 10000` already entered -/
+theorem parseValue_is_grammar (fl : PFlags) (depth f f' : Nat) (b : Bytes)
+    (hd : depth ≤ Gen.c_json_maxNestingDepth) (hf : 3 * b.length ≤ f) (hf' : 2 * b.length ≤ f')
+    (hq : Lemmas.JsonString.QSound fl b) :
+    Lemmas.JsonString.toOpt (parseValue fl depth f b) = Spec.Json.value f' (Gen.c_json_maxNestingDepth - depth) b :=
+  Lemmas.JsonValue.parseValue_toOpt fl depth f f' b hd hf hf' hq
 
 /-- `skipSpaces` (with its `b[0] <= 0x20` shortcut) removes exactly RFC 8259 white space -/
 theorem skipSpaces_eq_ws (b : Bytes) : skipSpaces b = Spec.Json.ws b := Lemmas.JsonWs.skipSpaces_eq_ws b
@@ -39,5 +38,14 @@ theorem skipSpaces_eq_ws (b : Bytes) : skipSpaces b = Spec.Json.ws b := Lemmas.J
 /-- non-vacuity -/
 example : valid [0x5b, 0x31, 0x2c, 0x22, 0x61, 0x22, 0x5d] = true := by decide +kernel
 example : valid [0x5b, 0x31, 0x20, 0x32, 0x5d] = false := by decide +kernel
+
+/-- the nesting limit is real and sharp: a document that starts with 10001 opening brackets is rejected whatever
+follows (in particular 10001 properly nested arrays, which RFC 8259 allows) … -/
+theorem deep_rejected (t : Bytes) : valid (List.replicate 10001 0x5b ++ t) = false :=
+  Lemmas.JsonValid.valid_too_deep t
+
+/-- … while 10000 nested arrays are accepted -/
+theorem max_depth_accepted : valid (List.replicate 10000 0x5b ++ List.replicate 10000 0x5d) = true :=
+  Lemmas.JsonValid.valid_max_depth
 
 end Enc.Props.C05
